@@ -4,3 +4,13 @@ def h(a=0):
 
 def shared(a=0):
   return ('shared-alt', a)
+
+
+class Worker:
+  """A class of the same name, with a method of the same name, lives in c19pkg.sub.m2."""
+
+  def __init__(self, n=0):
+    self.n = n
+
+  def run(self, arg=0):
+    return ('run-alt', self.n, arg)
